@@ -146,7 +146,7 @@ impl<'a> Interp<'a> {
                             return self.rej(Class::EnumTooNew, i, format!("{} is newer than the file version", t.text));
                         }
                         if it.vmax.map_or(false, |m| self.version > m) {
-                            self.deprecated.push((i, t.text.clone()));
+                            self.deprecated.push((i, format!("enum:{}", t.text)));
                         }
                     }
                 }
